@@ -11,7 +11,10 @@ def optional_parts(*specs):
     is wired as soon as its file is there)"""
     out = []
     here = os.path.dirname(os.path.abspath(__file__))
+    skip = set(filter(None, os.environ.get("VERIF_SKIP_PARTS", "").split(",")))      # parts under construction (development only)
     for mod, fn in specs:
+        if mod in skip:
+            continue
         if os.path.exists(os.path.join(here, mod + ".py")):
             out.append(getattr(importlib.import_module("props." + mod), fn))
     return out
